@@ -5,6 +5,7 @@ from vlib import Case, nats, exc_name
 
 ID = 'C20'
 TARGETS = ['SmppVerif.Props.C20']
+THOROUGH_ROUNDS = 6
 RULE = ('generated receipt dictionaries (ids over [0-9A-Za-z-_.:+/=], counts 0..999 and outside, dates 1969..2068 '
         'and outside, the seven standard states and others, err 0..999, texts with spaces/colons/empty/over 20 chars), '
         'built by encode_receipt and parsed back with random casing of field names, with/without the '
